@@ -301,6 +301,9 @@ Section Proofs.
     apply orb_true_iff in H. destruct H as [H|H]; [left|right]; apply sqb_sound; auto.
   Qed.
 
+  Lemma if_and (a b : bool) : (if a then b else false) = true -> a = true /\ b = true.
+  Proof. destruct a; [auto|discriminate]. Qed.
+
   Theorem guardb_sound vs v : guardb power committee honest input vs v = true -> guard vs v.
   Proof.
     unfold guardb, Spec.guard. destruct v as [s r p x]; cbn [Spec.ph Spec.vl Spec.round Spec.sender].
@@ -315,17 +318,19 @@ Section Proofs.
       right. apply exists_upto_spec in B. destruct B as [k [L E]]. exists k. split; auto. apply sqb_sound; auto.
     - intros H. apply andb_true_iff in H. destruct H as [A B]. split; [apply has_vote_in; auto | apply sqb_sound; auto].
     - intros H. apply existsb_exists in H. destruct H as [pv [Hpv H]].
+      apply if_and in H. destruct H as [H H0].
       repeat (apply andb_true_iff in H; destruct H as [H ?]).
       apply Nat.eqb_eq in H, H2. apply phase_eqb_eq in H1.
       destruct pv as [ps pr pp px]; cbn in *. subst. destruct px as [w|]; [|discriminate].
       exists w. split; auto. apply existsb_exists in H0. destruct H0 as [ov [Hov H0]].
+      apply if_and in H0. destruct H0 as [H0 Hj].
       repeat (apply andb_true_iff in H0; destruct H0 as [H0 ?]).
-      apply Nat.eqb_eq in H0. apply phase_eqb_eq in H2. destruct ov as [os or' op ox]; cbn in *. subst.
+      apply Nat.eqb_eq in H0. apply phase_eqb_eq in H1. destruct ov as [os or' op ox]; cbn in *. subst.
       exists os, ox. split.
-      { intros E. subst. apply negb_true_iff in H1. assert (val_eqb (Some w) (Some w) = true) by (apply val_eqb_eq; auto). congruence. }
+      { intros E. subst. apply negb_true_iff in H. assert (val_eqb (Some w) (Some w) = true) by (apply val_eqb_eq; auto). congruence. }
       split; auto. apply justifiedb_sound; auto.
     - intros H. apply andb_true_iff in H. destruct H as [A B]. apply Nat.eqb_eq in A. split; auto.
-      apply existsb_exists in B. destruct B as [cv [_ B]]. repeat (apply andb_true_iff in B; destruct B as [B ?]).
+      apply existsb_exists in B. destruct B as [cv [_ B]]. apply if_and in B. destruct B as [_ B].
       exists (Spec.round cv). apply sqb_sound; auto.
   Qed.
 
